@@ -435,6 +435,60 @@ def job_dfa2regexp(job, n, k, shape, length):
     return job.solve()
 
 
+# ------------------------------------------------------------------------------------------ derivations
+DERIV_CANDS = [('S', 'a'), ('S', 'SS'), ('S', 'b'), ('A', 'a'), ('B', 'b'), ('S', 'AB'), ('S', 'aS')]
+DERIV_FORMS = [['SS', 'AB', 'aS'], ['aS', 'Sb', 'Ab', 'aB', 'ab'], ['ab', 'aS', 'ba']]
+DERIV_FIXED = 5      # the first five candidate rules are always present; S -> AB and S -> aS are symbolic
+
+
+def job_derivation(job, dtype, word='ab'):
+    """check_cfg_derivation: grammar = fixed first rule S -> a plus six candidate rules (present or not); the submitted
+    derivation S => f1 => f2 [=> f3] has every form chosen symbolically from a list of candidates"""
+    import gambatools.notebook_cfg as NC
+    job.functions('notebook_cfg', ['check_cfg_derivation', 'cfg_has_derivation', 'cfg_apply_rule'])
+    job.functions('algorithms', ['last_index', 'first_index'])
+    d = E.dag
+    c.set_exhaustive(14)
+    bits = [TRUE] * DERIV_FIXED + [E.fresh('rule_%s_%s' % (X, r)) for X, r in DERIV_CANDS[DERIV_FIXED:]]
+    # every variable and terminal of the grammar must occur: A -> a and B -> b and S -> b are needed for V / Sigma to be stable
+    cfg_text = L.GStr([(b, '%s -> %s\n' % (X, r)) for b, (X, r) in zip(bits, DERIV_CANDS)])
+    texts = []
+    for a in DERIV_FORMS[0]:
+        for b in DERIV_FORMS[1]:
+            texts.append(['S', a, b])
+            for cc in DERIV_FORMS[2]:
+                texts.append(['S', a, b, cc])
+    texts += [['S', 'a'], ['S'], ['SS', 'aS', 'ab'], ['S', 'ab']]
+    # cube splitting over the submitted text: one lifted run of the checker per candidate derivation (the union of all
+    # candidate texts as ONE symbolic string does not lift: str.split / map over a union of strings of different shapes);
+    # the grammar stays symbolic
+    runs = []
+    for fs in texts:
+        runs.append((fs, run_checker(NC.check_cfg_derivation, cfg_text, ' => '.join(fs), word, dtype)))
+    job.lifted()
+    dec = lambda mv: {'rules': [list(r) for b, r in zip(bits, DERIV_CANDS) if mv(b)], 'type': dtype, 'word': word}
+    job.inputs['grammar'] = None
+    job.decoders['grammar'] = dec
+    mentioned = lambda ch: d.any_(b for b, (X, r) in zip(bits, DERIV_CANDS) if ch == X or ch in r)
+    oks = []
+    for fs, ev in runs:
+        ok = said_ok(ev)
+        oks.append(ok)
+        steps = nat.derivation_justifications(DERIV_CANDS, fs, 'S', word, dtype)
+        if steps is None:
+            valid = FALSE
+        else:
+            syms_ok = d.all_(mentioned(ch) for f in fs for ch in set(f))
+            valid = d.all_([syms_ok] + [d.any_(bits[i] for i in just) for just in steps])
+        text = ' => '.join(fs)
+        rp = ('derivation', {'x': (lambda t: (lambda mv: dict(dec(mv), derivation=t)))(text)})
+        job.oblige('OK for %r only if it is a %s derivation of %r from S in the grammar' % (text, dtype, word), d.and_(ok, valid ^ 1), replay=rp)
+    job.must_reach('OK is printed for some derivation', d.any_(oks))
+    job.must_reach('OK is not printed for some derivation', d.any_(o ^ 1 for o in oks))
+    job.failures_as_obligations(replay=('derivation', {'x': lambda mv: dict(dec(mv), derivation='S => a')}))
+    return job.solve()
+
+
 def jobs(tier):
     J = []
 
@@ -463,11 +517,18 @@ def jobs(tier):
     for s in ([ 'I', 0], ['C', 0, ['I', 0]], ['S', 0, ['C', 0, 0]], ['I', ['S', 0, 0]]):
         from .C06 import _shape_name
         add('dfa2regexp_%s' % _shape_name(s), job_dfa2regexp, n=2, k=2 if len(str(s)) < 18 else 1, shape=s, length=3, timeout=tmo)
+    for dtype in ('leftmost', 'rightmost', 'any'):
+        add('derivation_%s' % dtype, job_derivation, dtype=dtype, timeout=tmo)
     if not q:
+        # (fully symbolic two-symbol variants of the product / reverse / nfa2dfa jobs ran for more than 12 CPU-minutes each
+        # without finishing; the thorough tier deepens the length bound and the reference sizes instead)
         for op in ('union', 'intersection', 'symmetric_difference'):
-            add('product_%s_k2' % op, job_product, op=op, k=2, length=3, timeout=tmo)
-        add('reverse_n2_k2', job_reverse, n=2, k=2, length=3, timeout=tmo)
-        add('nfa2dfa_k2', job_nfa2dfa, k=2, length=3, timeout=tmo)
+            add('product_%s_k1_L5' % op, job_product, op=op, k=1, length=5, timeout=tmo)
+        add('reverse_n2_k1_L5', job_reverse, n=2, k=1, length=5, timeout=tmo)
+        add('complement_n3_k2', job_complement, n=3, k=2, timeout=tmo)
+        add('from_words_n3_k2', job_from_words, n=3, k=2, word_list='a ab abb', length=3, max_states=3, timeout=tmo)
+        add('accepts_rejects_n4_k1', job_accepts_rejects, n=4, k=1, accepted='aaa', rejected='_ a aa aaaa', timeout=tmo)
+        add('compare_languages_L3', job_compare, maxlen=3, timeout=tmo)
     return J
 
 
@@ -620,6 +681,19 @@ def _replay_dfa2regexp(rp):
     return _verdict(lines, words, ans, ref, all(ans(w) == ref(w) for w in words))
 
 
-REPLAY = {'compare': _replay_compare, 'complement': _replay_complement, 'product': _replay_product, 'reverse': _replay_reverse,
+def _replay_derivation(rp):
+    import gambatools.notebook_cfg as NC
+    x = rp['x']
+    cfg = ''.join('%s -> %s\n' % (X, r) for X, r in x['rules'])
+    lines = _capture(NC.check_cfg_derivation, cfg, x['derivation'], x['word'], x['type'])
+    forms = [f.strip() for f in x['derivation'].split('=>')]
+    cands = [tuple(r) for r in x['rules']]
+    steps = nat.derivation_justifications(cands, forms, 'S', x['word'], x['type'])
+    mentioned = set(ch for X, r in cands for ch in X + r)
+    valid = steps is not None and all(steps) and all(ch in mentioned for f in forms for ch in f)
+    return 'OK' in lines and not valid, {'printed': lines, 'valid derivation': valid}
+
+
+REPLAY = {'derivation': _replay_derivation, 'compare': _replay_compare, 'complement': _replay_complement, 'product': _replay_product, 'reverse': _replay_reverse,
           'minimal': _replay_minimal, 'nfa2dfa': _replay_nfa2dfa, 'from_words': _replay_from_words,
           'accepts_rejects': _replay_accepts_rejects, 'dfa2regexp': _replay_dfa2regexp}
